@@ -1,7 +1,7 @@
 SPECIFICATION Spec
 CONSTANTS
   Secrets = {"k1", "k2"}
-  Users = {"@alice:example.org", "@bob:example.org"}
+  Users = {"@alice:example.org", "@Alice:example.org", "@bob:example.org"}
   Durations = {0, 5, 3600}
   Offsets <- OffsetsQuick
   MaxAlter = 1
